@@ -34,21 +34,38 @@ Definition odd_int (x : f64) : bool :=
 
 Definition frac (x : f64) : f64 := fsub F64 x (ffloor F64 x).
 
-(* Spread.Clamp; spread: 0 none, 1 pad, 2 reflect, 3 repeat *)
-Definition clamp (spread : Z) (x : f64) : f64 :=
-  if fge F64 x d_zero then
-    if fle F64 x d_one then x
-    else if spread =? 1 then d_one
-    else if spread =? 2 then (if odd_int x then fsub F64 d_one (frac x) else frac x)
-    else if spread =? 3 then frac x
-    else d_mone
+(* Spread.Clamp; spread: 0 none, 1 pad, 2 reflect, 3 repeat.  Written once over an abstract numeric
+   type: instantiated with float64 (compared bit-for-bit with gradient.go) and with R (proofs/ClampR.v). *)
+Record clampops (T : Type) := mkClampOps {
+  k_ge0 : T -> bool; k_le1 : T -> bool;
+  k_zero : T; k_one : T; k_mone : T;
+  k_neg : T -> T; k_sub : T -> T -> T;
+  k_frac : T -> T;          (* x - floor x *)
+  k_odd : T -> bool         (* int(x) & 1 for x >= 0 *)
+}.
+Arguments k_ge0 {T}. Arguments k_le1 {T}. Arguments k_zero {T}. Arguments k_one {T}. Arguments k_mone {T}.
+Arguments k_neg {T}. Arguments k_sub {T}. Arguments k_frac {T}. Arguments k_odd {T}.
+
+Definition clamp_gen {T} (O : clampops T) (spread : Z) (x : T) : T :=
+  if k_ge0 O x then
+    if k_le1 O x then x
+    else if spread =? 1 then k_one O
+    else if spread =? 2 then (if k_odd O x then k_sub O (k_one O) (k_frac O x) else k_frac O x)
+    else if spread =? 3 then k_frac O x
+    else k_mone O
   else
-    if spread =? 1 then d_zero
+    if spread =? 1 then k_zero O
     else if spread =? 2 then
-      let y := fneg F64 x in
-      if odd_int y then fsub F64 d_one (frac y) else frac y
-    else if spread =? 3 then frac x
-    else d_mone.
+      let y := k_neg O x in
+      if k_odd O y then k_sub O (k_one O) (k_frac O y) else k_frac O y
+    else if spread =? 3 then k_frac O x
+    else k_mone O.
+
+Definition F64clamp : clampops f64 :=
+  mkClampOps f64 (fun x => fge F64 x d_zero) (fun x => fle F64 x d_one) d_zero d_one d_mone
+             (fneg F64) (fsub F64) frac odd_int.
+
+Definition clamp (spread : Z) (x : f64) : f64 := clamp_gen F64clamp spread x.
 
 Record rgba64 := mkC64 { c_r : Z; c_g : Z; c_b : Z; c_a : Z }.
 Definition c64_of (c : rgba) : rgba64 := mkC64 (cr c * 257) (cg c * 257) (cb c * 257) (ca c * 257).
